@@ -247,6 +247,71 @@ def shared_blob_crash(out, grog, harness, tier):
     return stats
 
 
+def interrupted_blob_write(out, grog, harness, tier):
+    """A build is INTERRUPTED (SIGINT / SIGTERM: the graceful path, contexts are cancelled, deferred code runs) while a large
+    output is being copied into the cache (a cas/tmp-* file exists).  Afterwards the offline audit demands that no blob is
+    visible under a digest its bytes do not have, and the follow-up build must reproduce the from-scratch bytes."""
+    trials = 4 if tier == "quick" else 30
+    base = os.path.join(vlib.scratch(), "c07intr")
+    stats = {"trials": 0, "interrupted_during_blob_write": 0, "followups_compared": 0}
+    for k in range(trials):
+        d = os.path.join(base, "t%d" % k)
+        ws, root = os.path.join(d, "ws"), os.path.join(d, "root")
+        os.makedirs(os.path.join(ws, "p"), exist_ok=True); os.makedirs(root, exist_ok=True)
+        size = 160000000 + 1000 * k
+        targets = [{"name": "big", "command": "head -c %d /dev/zero | tr '\\0' b > big.out" % size, "outputs": ["big.out"]},
+                   {"name": "use", "command": "cksum < big.out > sum.txt", "dependencies": [":big"], "outputs": ["sum.txt"]}]
+        json.dump({"targets": targets}, open(os.path.join(ws, "p", "BUILD.json"), "w"))
+        open(os.path.join(ws, "grog.toml"), "w").write("num_workers = 2\n")
+        cdir = store_ws.cache_dir(root, ws)
+        env = {"PATH": os.environ["PATH"], "GROG_ROOT": root, "HOME": d, "NO_COLOR": "1"}
+        p = subprocess.Popen([grog, "build"], cwd=ws, env=env, stdin=subprocess.DEVNULL, stdout=subprocess.DEVNULL, stderr=subprocess.DEVNULL,
+                             start_new_session=True)
+        t0 = time.time(); seen = False
+        casdir = os.path.join(cdir, "cas")
+        while time.time() - t0 < 40 and p.poll() is None:
+            try:
+                if any(f.startswith("tmp-") for f in os.listdir(casdir)):
+                    seen = True
+                    break
+            except FileNotFoundError:
+                pass
+        sig = signal.SIGINT if k % 2 == 0 else signal.SIGTERM
+        try:
+            os.kill(p.pid, sig)
+        except ProcessLookupError:
+            pass
+        try:
+            p.wait(timeout=30)
+        except subprocess.TimeoutExpired:
+            os.killpg(p.pid, signal.SIGKILL); p.wait()
+        stats["trials"] += 1
+        desc = {"workspace": {"targets": targets, "num_workers": 2}, "signal": "%s when a tmp- file appears under cache/cas" % sig.name}
+        if seen:
+            stats["interrupted_during_blob_write"] += 1
+            au = store_ws.audit(harness, cdir)
+            if au["problems"]:
+                out.violation("a build interrupted (%s) while a blob was being copied into the cache leaves: %s" % (sig.name, au["problems"][0][:260]),
+                              dict(desc, problem=au["problems"][0], audit={"cas": au["cas"], "targets": au["targets"], "tmp": au["tmp"]}))
+            else:
+                # follow-up build, then a history that has to RELOAD the blob: remove the outputs, build again; compare with the size the command writes
+                f1 = subprocess.run([grog, "build"], cwd=ws, env=env, stdin=subprocess.DEVNULL, stdout=subprocess.PIPE, stderr=subprocess.PIPE, timeout=300)
+                for f in ("big.out", "sum.txt"):
+                    if os.path.exists(os.path.join(ws, "p", f)):
+                        os.unlink(os.path.join(ws, "p", f))
+                f2 = subprocess.run([grog, "build"], cwd=ws, env=env, stdin=subprocess.DEVNULL, stdout=subprocess.PIPE, stderr=subprocess.PIPE, timeout=300)
+                stats["followups_compared"] += 1
+                got = os.path.getsize(os.path.join(ws, "p", "big.out")) if os.path.exists(os.path.join(ws, "p", "big.out")) else None
+                if f1.returncode != 0 or f2.returncode != 0 or got != size:
+                    out.violation("after a build interrupted (%s) during a blob write the follow-up builds give big.out of %s bytes (rc %s, %s); a "
+                                  "from-scratch build writes %d bytes" % (sig.name, got, f1.returncode, f2.returncode, size),
+                                  dict(desc, followup_rc=[f1.returncode, f2.returncode], restored_size=got, expected_size=size))
+        shutil.rmtree(d, ignore_errors=True)
+        if out.violations:
+            break
+    return stats
+
+
 def run(out, tier):
     findings = {f["class"]: f for f in vlib.known_findings("C07")}
     harness = None
@@ -271,6 +336,7 @@ def run(out, tier):
         return
     grog = vlib.build_grog()
     inproc["shared_blob_crash"] = shared_blob_crash(out, grog, harness, tier)
+    inproc["interrupted_blob_write"] = interrupted_blob_write(out, grog, harness, tier)
     r = vlib.Rng(vlib.seed() * 104729 + 7)
     base = os.path.join(vlib.scratch(), "c07")
     os.makedirs(base, exist_ok=True)
